@@ -89,10 +89,18 @@ def check_transform(ctx, drv, roles):
 
     paths = run(ctx, ex, thunk)
     rets = returns(paths)
-    if len(paths) != 1 or not rets:
-        ctx.undecided(rule, drv.qualname, drv.loc(), f"{len(paths)} paths through the transform (expected straight-line code)")
+    if not rets or len(paths) > 8:
+        ctx.undecided(rule, drv.qualname, drv.loc(), f"{len(paths)} paths through the transform, {len(rets)} returning")
         return
-    p = rets[0]
+    for p in paths:
+        if p.outcome == "raise":
+            ctx.violation(rule, "raises", p.exc.func.loc(p.exc.node) if p.exc.func else drv.loc(), "the transform raises on a path with valid symbolic arguments", found=p.exc.exc_name)
+    for k, p in enumerate(rets):
+        _check_transform_path(ctx, ex, p, drv, b, first=(k == 0))
+
+
+def _check_transform_path(ctx, ex, p, drv, b, first=True):
+    rule = "C08.a WINDOW-GEOM"
     evs = [e for e in p.events if e.kind == "scorer_evaluate"]
     fits = [e for e in p.events if e.kind == "scorer_fit"]
     if len(evs) != 1:
@@ -238,17 +246,34 @@ def check_runs(ctx, finder: FuncInfo):
         after = [e for e in p.events if e.kind == "list_append" and lp not in e.loops]
         # the carried 'start' variable: the maybe-None one
         pre = lp.info["pre"]
-        svars = [n for n, v in pre.items() if isinstance(v, NoneV)]
+        # the carried 'start' marker: None or an integer sentinel before the loop
+        svars = [n for n, v in pre.items() if isinstance(v, NoneV) or (isinstance(v, Num) and v.shape == () and v.nf is not None and v.nf.as_const() is not None)]
+
+        def is_carried_start(x):
+            if isinstance(x, OpaqueV):
+                return any(x.key == f"{lp.lid}.{n}.in" for n in svars)
+            if isinstance(x, Num) and x.nf is not None:
+                a = single_atom(x.nf)
+                return a is not None and a.kind == "lc" and any(a.args[0] == f"{lp.lid}.{n}.in" for n in svars)
+            return False
+
+        def same_as_pre(n, v):
+            p0 = pre.get(n)
+            if isinstance(p0, NoneV):
+                return isinstance(v, NoneV)
+            return isinstance(v, Num) and isinstance(p0, Num) and v.nf is not None and nf_equal(v.nf, p0.nf)
+
         for e in inloop:
             tv = e.data["value"]
             if "in" in seen:
                 continue
             seen.add("in")
-            ok = isinstance(tv, TupleV) and len(tv.items) == 2 and isinstance(tv.items[1], Num) and nf_equal(tv.items[1].nf, lv) and isinstance(tv.items[0], OpaqueV) and ".in" in tv.items[0].key
+            ok = isinstance(tv, TupleV) and len(tv.items) == 2 and isinstance(tv.items[1], Num) and nf_equal(tv.items[1].nf, lv) and is_carried_start(tv.items[0])
             ctx.check(ok, rule, "transition-end", e.loc(), "at a True->False transition the run (carried start, i) is recorded: it ends before the first False position", found=repr(tv), expected="(start, i)")
             be = lp.info["body_env"]
-            reset = all(isinstance(be.get(n), NoneV) for n in svars if n in be) if svars else False
-            ctx.check(reset, rule, "transition-reset", e.loc(), "after recording a run the start is reset to None", found={n: repr(be.get(n)) for n in svars})
+            marker = [n for n in svars if is_carried_start(tv.items[0]) and (f".{n}.in" in (tv.items[0].key if isinstance(tv.items[0], OpaqueV) else repr(tv.items[0])))] if isinstance(tv, TupleV) and tv.items else []
+            reset = bool(marker) and all(same_as_pre(n, be.get(n)) for n in marker)
+            ctx.check(reset, rule, "transition-reset", e.loc(), "after recording a run the start marker is reset to its 'no open run' value (None / sentinel)", found={n: repr(be.get(n)) for n in svars})
         for e in after:
             tv = e.data["value"]
             if "after" in seen:
@@ -258,7 +283,7 @@ def check_runs(ctx, finder: FuncInfo):
             ctx.check(ok, rule, "final-run", e.loc(), "a run still open at the end is recorded as (start, len(indicator))", found=repr(tv), expected="(start, n)")
         # a path that sets start = i without appending (False->True)
         be = lp.info["body_env"]
-        if not inloop and svars and any(isinstance(be.get(n), Num) and nf_equal(be.get(n).nf, lv) for n in svars):
+        if not inloop and svars and any(isinstance(be.get(n), Num) and be.get(n).nf is not None and nf_equal(be.get(n).nf, lv) for n in svars):
             if "open" not in seen:
                 seen.add("open")
                 ctx.holds(rule, "transition-start", finder.loc(lp.node), "at a False->True transition the run start is set to the current position i")
